@@ -152,6 +152,17 @@ Theorem C11_zero_addon_moic : forall (a : addon_in) (life : nat),
 Proof. exact zero_addon_moic. Qed.
 Print Assumptions C11_zero_addon_moic.
 
+(* the neutral tax credit / fees / incentives / grant carried through to the results: the project cash flow (every year),
+   its NPV (every discount rate) and the payback period computed from the adjusted capital cost equal those computed from
+   the unadjusted one *)
+Theorem C11_neutral_adjustments_results : forall (k : cost_in) (c : cf_in) (r : Q),
+  k_ritc k == 0 -> k_flat k == 0 -> k_other k == 0 -> k_grant k == 0 ->
+  Forall2 Qeq (total_cashflow (with_ccap c (ccap k))) (total_cashflow (with_ccap c (ccap_pre k))) /\
+  npv r (total_cashflow (with_ccap c (ccap k))) == npv r (total_cashflow (with_ccap c (ccap_pre k))) /\
+  payback (running (total_cashflow (with_ccap c (ccap k)))) == payback (running (total_cashflow (with_ccap c (ccap_pre k)))).
+Proof. exact neutral_adjustments_cashflow. Qed.
+Print Assumptions C11_neutral_adjustments_results.
+
 (* ---- non-vacuity ---- *)
 Example ex_scale : let c := Verif.Props.C01.ex1 in
   let '(a, b, _) := lcoe_exec c in let '(a3, b3, _) := lcoe_exec (scale_costs 3 c) in a3 == 3 * a /\ b3 == 3 * b /\ 0 < a.
